@@ -21,7 +21,7 @@ type Behaviour struct {
 	// Snapshot: the answer is what the service held when the request ARRIVED (a reply that is slow on its way
 	// back) instead of what it holds when the wait is over (a request that is slow on its way in).
 	Snapshot bool
-	Fail  error         // if non-nil, answer with this error
+	Fail     error // if non-nil, answer with this error
 	// Plain makes an immediate failure (no Delay/Hold) report Fail even when the request context
 	// has already ended, the way a client does that fails before it ever looks at the context
 	// ("connection refused"). The error then does not wrap the context's error.
